@@ -369,20 +369,24 @@ func genC03Corpus(t *rapid.T) c03Case {
 }
 
 var c03CorpusProp = Define("C03", "corpus",
-	"Every .sysl file under the tree (sorted, dealt to shards by index), compiled in place through a copy-on-write layer with the first accepting root of {own directory, tests/, tree root}; files no root accepts are kept (root = own directory) to relate acceptance. (1) deterministic sweep: every file x the enumerated compositions c03EnumOps(0..k-1) (k=3 quick, 24 thorough: x2 + unaligned tabs; x3 + blank/whitespace-only lines everywhere; comments of every kind at every safe boundary + tabs; then splitmix-patterned mixes); (2) rapid-drawn (file, composition) pairs over accepted files. Comments only at boundaries a conservative classifier accepts (not inside !view bodies, not next to '|' lines, not inside brackets spanning lines; refused boundaries are counted); lines that continue a quoted string left open by an earlier line are content and stay untouched. Oracle as C03/generated. Non-trivial: >=1 leading run changed or >=1 line inserted, and nesting depth >=2; distinct by hash of (file, transformed text).",
+	"Every .sysl file under the tree (sorted, dealt to shards by index), compiled in place through a copy-on-write layer with the first accepting root of {own directory, tests/, tree root}; files no root accepts are kept (root = own directory) to relate acceptance. (1) deterministic sweep: every file x the enumerated compositions c03EnumOps(0..k-1) (k=2 quick, 24 thorough: x2 + unaligned tabs + blank/whitespace-only lines; x3 + comments of every kind at every safe boundary + tabs in every position; then each family alone; then splitmix-patterned mixes); (2) rapid-drawn (file, composition) pairs over accepted files. Comments only at boundaries a conservative classifier accepts (not inside !view bodies, not next to '|' lines, not inside brackets spanning lines; refused boundaries are counted); lines that continue a quoted string left open by an earlier line are content and stay untouched. Oracle as C03/generated. Non-trivial: >=1 leading run changed or >=1 line inserted, and nesting depth >=2; distinct by hash of (file, transformed text).",
 	genC03Corpus, checkC03Corpus)
 
 // c03EnumOps is the deterministic enumeration of compositions used by the corpus sweep.
 func c03EnumOps(j int) c03Ops {
 	switch j {
-	case 0: // double indentation, tabs after the unaligned remainder wherever a group fits
-		return c03Ops{Scale: 2, Tabs: []int{1, 3, 2, 1}}
-	case 1: // triple, blank and whitespace-only lines at every boundary
-		return c03Ops{Scale: 3, Blanks: []int{1, 2, 3}}
-	case 2: // comments of every kind at every safe boundary, tabs in every position
-		return c03Ops{Scale: 1, Tabs: []int{0, 5, 9, 2}, Cmts: []int{1, 2, 3, 4, 5, 6}}
-	case 3:
-		return c03Ops{Scale: 4, Tabs: []int{3, 7, 11}, Blanks: []int{0, 0, 2}, Cmts: []int{0, 2, 0, 6, 0}}
+	case 0: // double indentation, tabs after the unaligned remainder wherever a group fits, blank and whitespace-only lines
+		return c03Ops{Scale: 2, Tabs: []int{1, 3, 2, 1}, Blanks: []int{0, 1, 0, 2}}
+	case 1: // triple, comments of every kind at every safe boundary, tabs in every position, blank+tab lines
+		return c03Ops{Scale: 3, Tabs: []int{0, 5, 9, 2}, Cmts: []int{1, 2, 3, 4, 5, 6}, Blanks: []int{0, 0, 3}}
+	case 2: // tab respelling alone
+		return c03Ops{Scale: 1, Tabs: []int{1, 2, 3, 9, 6}}
+	case 3: // scaling alone
+		return c03Ops{Scale: 4}
+	case 4: // blank and whitespace-only lines alone, at every boundary
+		return c03Ops{Scale: 1, Blanks: []int{1, 2, 3}}
+	case 5: // comments alone, at every safe boundary
+		return c03Ops{Scale: 1, Cmts: []int{1, 2, 3, 4, 5, 6}}
 	}
 	z := splitmix(uint64(j) * 0x9e3779b1)
 	next := func(n int) int {
@@ -429,7 +433,7 @@ func TestC03(t *testing.T) {
 	if len(rejected) > 0 {
 		r.Note(fmt.Sprintf("corpus-rejected-shard-%d", cfg.Shard), strings.Join(rejected, " "))
 	}
-	k := scale(3, 24)
+	k := scale(2, 24)
 	bad := 0
 sweep:
 	for _, f := range files {
